@@ -634,6 +634,15 @@ def schema_signature(msg):
     return 'C04:schema:%s%s:%s' % (el, '@' + at if at else '', kind), text[:200]
 
 
+CORPUS_BASES = ['corpus:rich_base.dae']
+
+
+def base_path(name):
+    if name.startswith('corpus:'):
+        return os.path.join(core.VERIF, 'corpus', 'C04', name.split(':', 1)[1])
+    return os.path.join(core.REPO, 'collada', 'tests', 'data', name)
+
+
 class Harness:
     def __init__(self, ctx):
         self.ctx = ctx
@@ -643,8 +652,7 @@ class Harness:
     def base(self, name):
         """shrunk shipped document (bytes), or None when it is not a schema-valid base"""
         if name not in self.bases:
-            data = open(os.path.join(core.REPO, 'collada', 'tests', 'data', name), 'rb').read()
-            self.bases[name] = c04enc.shrink_dae(data)
+            self.bases[name] = c04enc.shrink_dae(open(base_path(name), 'rb').read())
         return self.bases[name]
 
     def run_recipes(self, recipes):
@@ -690,9 +698,9 @@ def run(ctx):
     # ---- (a) shipped files: cross-validation pool and bases for edit histories
     xdocs = []      # (label, bytes) for cross-validation
     valid_bases = []
-    for name in SHIPPED:
+    for name in SHIPPED + CORPUS_BASES:
         try:
-            full = open(os.path.join(core.REPO, 'collada', 'tests', 'data', name), 'rb').read()
+            full = open(base_path(name), 'rb').read()
             small = H.base(name)
         except Exception as e:  # noqa
             ctx.log('shipped file %s unusable: %r' % (name, e))
@@ -706,11 +714,11 @@ def run(ctx):
             if label.startswith('shipped-shrunk:') and ok:
                 valid_bases.append(label.split(':', 1)[1])
     else:
-        valid_bases = ['duck_triangles.dae', 'duck_polylist.dae', 'trifans.dae', 'tristrips.dae']
+        valid_bases = ['duck_triangles.dae', 'duck_polylist.dae', 'trifans.dae', 'tristrips.dae'] + CORPUS_BASES
     ctx.log('schema-valid shipped bases: %s' % valid_bases)
 
     # ---- (b) documents written by the implementation
-    nscratch, nedit = (110, 50) if quick else (1600, 800)
+    nscratch, nedit = (120, 90) if quick else (1600, 1200)
     recipes = [gen_scratch(rng, i) for i in range(nscratch)]
     recipes += [gen_edit(rng, nscratch + i, rng.choice(valid_bases)) for i in range(nedit)] if valid_bases else []
     cdir = os.path.join(core.VERIF, 'corpus', 'C04')
